@@ -2,8 +2,10 @@
    the remote end (C18):
      sshuttle/ssh.py        get_module_source / empackage / connect (18-31, 87-122, 252-255)
      sshuttle/assembler.py  the whole file (the loop at 14-38)
-     sshuttle/client.py     _main 591-640, 728-733, 787-812 (start-up order only)
-     sshuttle/server.py     main 287-299 (synchronisation header)
+     sshuttle/client.py     _main: from `ssh.connect(` to the first `ssnet.runonce(handlers, mux)`
+                            (start-up order only; line numbers below are those of /repo when written
+                            and move with every fix commit — the statements quoted identify the code)
+     sshuttle/server.py     main: up to `sys.stdout.write('\0\0SSHUTTLE0001'); sys.stdout.flush()`
    Definitions only; proofs live in Proofs/Assemble_lemmas.v.
 
    zlib is abstract: the functions below take the compressor / decompressor
@@ -496,14 +498,14 @@ Definition remote_options (mods : list (bytes * bytes)) : option (list (bytes * 
 
 (* ------------------------------------------------------------------ *)
 (* Start-up order on the client: client.py _main.
-     606  ssh.connect(...)            -> wfile.write(content); wfile.write(content2)
-     622  mux = Mux(rfile, wfile)     -> Mux.__init__ queues PING 'chicken' (outbuf only)
-     625-640  read up to two NULs and the 12-byte sync string
-     649  serverproc.poll()           -> Fatal if the server already died
-     728  initstring != expected      -> Fatal
-     731  log('Connected to server.')
-     789  mux.send(0, CMD_HOST_REQ, ...) if seed_hosts is not None (queued only)
-     808-810  main loop: first ssnet.runonce -> Mux.callback -> flush(): one write of outbuf[0]
+     630  ssh.connect(...)            -> wfile.write(content); wfile.write(content2)
+     646  mux = Mux(rfile, wfile)     -> Mux.__init__ queues PING 'chicken' (outbuf only)
+     649-664  read up to two NULs and the 12-byte sync string
+     673  serverproc.poll()           -> Fatal if the server already died
+     752  initstring != expected      -> Fatal
+     755  log('Connected to server.')
+     818  mux.send(0, CMD_HOST_REQ, ...) if seed_hosts is not None (queued only)
+     837-839  main loop: first ssnet.runonce -> Mux.callback -> flush(): one write of outbuf[0]
    The full client life cycle belongs to C12; this is only the ordering of
    writes on the server pipe relative to the verified sync string. *)
 
@@ -565,7 +567,7 @@ Fixpoint writes_after_sync (t : list cev) : list bytes :=
   end.
 
 (* ------------------------------------------------------------------ *)
-(* server.py main 287-299: what happens before anything else is written to
+(* server.py main (its first statements): what happens before anything else is written to
    stdout.  `lbs` is options.latency_buffer_size as received. *)
 
 Inductive sev :=
